@@ -424,6 +424,27 @@ impl Generator
 		});
 		(*function, return_type)
 	}
+
+	fn get_memcpy_intrinsic(&mut self) -> LLVMValueRef
+	{
+		let name = "llvm.memcpy.p0i8.p0i8.i64";
+		let function = self.used_intrinsics.entry(name).or_insert_with(|| {
+			let function_name = CString::new(name.as_bytes()).unwrap();
+
+			unsafe {
+				let void_type = LLVMVoidTypeInContext(self.context);
+				let char_type = LLVMInt8TypeInContext(self.context);
+				let ptr_type = LLVMPointerType(char_type, 0u32);
+				let size_type = LLVMInt64TypeInContext(self.context);
+				let flag_type = LLVMInt1TypeInContext(self.context);
+				let mut args = [ptr_type, ptr_type, size_type, flag_type];
+				let fn_type =
+					LLVMFunctionType(void_type, args.as_mut_ptr(), 4, 0);
+				LLVMAddFunction(self.module, function_name.as_ptr(), fn_type)
+			}
+		});
+		*function
+	}
 }
 
 impl Drop for Generator
@@ -2232,6 +2253,9 @@ struct FormatBuffer
 {
 	format: Vec<u8>,
 	inserted_arguments: Vec<LLVMValueRef>,
+	/// Of each string: the variable that receives its offset in the output,
+	/// its address and its length.
+	inserted_strings: Vec<(LLVMValueRef, LLVMValueRef, LLVMValueRef)>,
 }
 
 impl FormatBuffer
@@ -2380,6 +2404,33 @@ fn generate_format(
 		llvm,
 	)?;
 	unsafe { LLVMSetValueName(length_without_nul, cstr!(".outlen")) };
+
+	// A string may contain NUL bytes, at which snprintf stops copying it.
+	for (var_offset, string_ptr, string_len) in format_buffer.inserted_strings
+	{
+		let function = llvm.get_memcpy_intrinsic();
+		unsafe {
+			let offset = LLVMBuildLoad(llvm.builder, var_offset, cstr!(""));
+			let mut indices = [offset];
+			let destination = LLVMBuildGEP(
+				llvm.builder,
+				output_buffer,
+				indices.as_mut_ptr(),
+				indices.len() as u32,
+				cstr!(""),
+			);
+			let i64_type = LLVMInt64TypeInContext(llvm.context);
+			let len = LLVMBuildZExtOrBitCast(
+				llvm.builder,
+				string_len,
+				i64_type,
+				cstr!(""),
+			);
+			let no = LLVMConstNull(LLVMInt1TypeInContext(llvm.context));
+			let mut a = [destination, string_ptr, len, no /* volatile */];
+			LLVMBuildCall(llvm.builder, function, a.as_mut_ptr(), 4, cstr!(""));
+		}
+	}
 
 	generate_slice_from_ptr_and_len(
 		output_buffer,
@@ -2656,9 +2707,18 @@ fn format_slice(
 		let slice = slice.generate(llvm)?;
 		let (slice_ptr, slice_len) =
 			generate_ptr_and_len_from_slice(slice, llvm)?;
-		buffer.add_specifier("%.*s");
+		// Reserve exactly as many bytes as the string has (%.*s stops at
+		// a NUL byte) and record where; the bytes are copied afterwards.
+		let var_offset = unsafe {
+			let i32_type = LLVMInt32TypeInContext(llvm.context);
+			LLVMBuildAlloca(llvm.builder, i32_type, cstr!(".stroffset"))
+		};
+		buffer.add_specifier("%n%-*.*s");
+		buffer.insert(var_offset);
+		buffer.insert(slice_len);
 		buffer.insert(slice_len);
 		buffer.insert(slice_ptr);
+		buffer.inserted_strings.push((var_offset, slice_ptr, slice_len));
 		Ok(())
 	}
 	else
